@@ -643,3 +643,43 @@ def c05(tier='quick', seed=0):
         body = f1(c) + f2(c)
         out.append(Template('c05/fn/seq[%s;%s]/notail' % (n1, n2), fn3(body), family='c05-fn', expect='any', unroll=3, meta=meta))
     return out
+
+
+# ------------------------------------------------------------------------------------------------ C02 extras
+def c02_extra(tier='quick'):
+    """Templates aimed at places where the two back ends select instructions independently: a narrowing cast whose
+    result is consumed directly (not through a typed local, which re-normalises on the store/load), and division /
+    remainder WITHOUT the usual precondition (only agreement of the two targets is asserted, so the corner cases
+    /0 and MIN/-1 are in)."""
+    out = []
+    srcs = [I64, U64, I32, U32] if tier == 'quick' else INTS
+    for d in INTS:
+        for s in srcs:
+            if s.bits <= d.bits and tier == 'quick':
+                continue
+            a = Var('a', s)
+            head = [Let('a', s, Cast(X, s))] if s != I64 else []
+            e = Cast(a if s != I64 else X, d)
+            body = head + [If(Cmp('>', e, Lit(0, d)), [Return(Lit(1, I64))]), Return(Lit(0, I64))]
+            out.append(Template('castuse/cmp/%s/%s' % (s.name, d.name), fn1(body), family='castuse'))
+            body = head + [Let('r', I64, Cast(e, I64)), Return(Var('r', I64))]
+            out.append(Template('castuse/widen/%s/%s' % (s.name, d.name), fn1(body), family='castuse'))
+            h = Func('h', [('v', d)], I64, [Let('w', I64, Cast(Var('v', d), I64)), Return(Var('w', I64))])
+            body = head + [Let('r', I64, Call('h', [e], I64)), Return(Var('r', I64))]
+            out.append(Template('castuse/arg/%s/%s' % (s.name, d.name), fn1(body, extra=[h]), family='castuse'))
+            body = head + [Let('r', d, Bin('/', e, Lit(2, d))), Return(Cast(Var('r', d), I64))]
+            out.append(Template('castuse/div/%s/%s' % (s.name, d.name), fn1(body), family='castuse'))
+    for ty in INTS:
+        a, b = Var('a', ty), Var('b', ty)
+        head = [Let('a', ty, Cast(X, ty)), Let('b', ty, Cast(Y, ty))]
+        for op in '/%':
+            body = head + [Let('r', ty, Bin(op, a, b)), Return(Cast(Var('r', ty), I64))]
+            out.append(Template('rawdiv/%s/%s' % (OPNAME[op], ty.name), fn2(body), family='rawdiv'))
+    return out
+
+
+def c02(tier='quick'):
+    if tier == 'quick':
+        base = arith(consumers=('local', 'cmp')) + compare() + casts() + unary() + control() + composites() + refs()
+        return base + c02_extra(tier) + c08(tier) + c18(tier)
+    return c01_thorough() + c02_extra(tier) + c04(tier) + c08(tier) + c18(tier) + c05(tier, 0)
